@@ -21,7 +21,7 @@ func init() {
 		Rule: "one evaluation = a fresh server whose Run is started while 1..8 pollers spin on Ready(); the first poller iteration that observes true immediately dials the address and performs a verified bind, and " +
 			"keeps dialing at PRNG-chosen later instants until Stop is called. Addresses cover IPv4, hostname, bracketed and unbracketed IPv6 loopback and the empty-host form. Failing addresses (empty, no port, IP literals of the documentation ranges that are not assigned to the host, " +
 			"bracket errors, invalid IPv4, unresolvable host, a port the harness keeps bound, a port served by another running gldap server, and a TLS configuration without certificates) must make Run return an error while Ready() - polled during the call and for a while after - never reports true. " +
-			"Between Ready and Stop the harness also lets Accept fail temporarily (descriptor shortage), runs a stopped server again on a port somebody else took meanwhile, stops another server that shares the mux (and starts a new one on that mux), keeps 300/520/1100 idle connections open and parks silent peers on a TLS listener: a new connection must still be served within 10s afterwards / meanwhile. Runs under GOMAXPROCS 1, 4 and 16. A refused dial after an observed true is a logical fact, not a timing judgement. " +
+			"Between Ready and Stop the harness also lets Accept fail temporarily (descriptor shortage), calls Run once more on the running server with an address that lacks a port (that call fails; the running server goes on), runs a stopped server again on a port somebody else took meanwhile, stops another server that shares the mux (and starts a new one on that mux), keeps 300/520/1100 idle connections open and parks silent peers on a TLS listener: a new connection must still be served within 10s afterwards / meanwhile. Runs under GOMAXPROCS 1, 4 and 16. A refused dial after an observed true is a logical fact, not a timing judgement. " +
 			"distinct_nontrivial = distinct (address form, #pollers, GOMAXPROCS, whether a poller saw false before true) combinations",
 		Assume: []string{"the address is dialled exactly as it was passed to Run (for the empty-host form, 127.0.0.1)"},
 		Phases: func(tier string, seed int64) []Phase {
